@@ -16,6 +16,8 @@
  *   r drop <h>                            traits->fini(&h)
  *   r assign <h> <g> | r assigno <h> <o|null>   meta kinds: converter(TypeMetaRef); buffer kinds: mpt_array_clone
  *   r ext <o> addref|unref                external reference through the object's vtable
+ *   r detach <h> <len>                    library buffer behind handle h: buf->_vptr->detach(buf, len * 8);
+ *                                          buffers handed out by detach are numbered n0, n1, .. (no 'r obj' after the first)
  *   r end                                 drop every handle, then every external reference of small counters
  * value words: decimal, "max", "max-1"
  */
@@ -50,10 +52,15 @@ static int nobj;
 struct handle { int isarr; MPT_INTERFACE(metatype) *mt; MPT_STRUCT(array) arr; };
 static struct handle hnd[NH];
 
+/* buffers handed out by detach, in order */
+#define NANON 64
+static MPT_STRUCT(buffer) *anon[NANON];
+static int nanon;
+
 static MPT_STRUCT(refcount) counter;
 
 /* element tokens finalised / copied in the current op (library buffers) */
-static char elog[512];
+static char elog[4096];
 static void elog_add(const char *tag, uint64_t tok)
 {
 	size_t n = strlen(elog);
@@ -143,6 +150,7 @@ static int obj_of_buf(MPT_STRUCT(buffer) *b)
 		if (objs[i].kind == K_BUF && &objs[i].hb.b == b) return i;
 		if (objs[i].kind == K_RBUF && objs[i].lib == (void *) b) return i;
 	}
+	for (int i = nanon - 1; i >= 0; i--) if (anon[i] == b) return 100 + i;
 	return 9;
 }
 static void put_count(uintptr_t v)
@@ -171,6 +179,7 @@ static void result(const char *r, const char *iret)
 	for (int h = 0; h < NH; h++) {
 		int o = hnd[h].isarr ? obj_of_buf(hnd[h].arr._buf) : obj_of_meta(hnd[h].mt);
 		if (o < 0) printf(" h%d=-", h);
+		else if (o >= 100) printf(" h%d=n%d", h, o - 100);
 		else if (o == 9) printf(" h%d=new", h);
 		else printf(" h%d=%d", h, o);
 	}
@@ -256,6 +265,7 @@ int main(void)
 			finish_script();
 			clear_events();
 			nobj = 0;
+			nanon = 0;
 			memset(objs, 0, sizeof(objs));
 			memset(hnd, 0, sizeof(hnd));
 			counter._val = 0;
@@ -274,7 +284,7 @@ int main(void)
 		else if (!strcmp(op, "obj") && drv_nw == 4) {
 			uintptr_t v;
 			struct hobj *o;
-			if (nobj >= NOBJ || parse_count(drv_w[3], &v)) { puts("bad-op"); continue; }
+			if (nobj >= NOBJ || nanon || parse_count(drv_w[3], &v)) { puts("bad-op"); continue; }
 			o = &objs[nobj];
 			memset(o, 0, sizeof(*o));
 			if (!strcmp(drv_w[2], "meta") || !strcmp(drv_w[2], "buf")) {
@@ -290,7 +300,7 @@ int main(void)
 			}
 			else if (!strcmp(drv_w[2], "rbuf")) {
 				MPT_STRUCT(buffer) *b;
-				if (v > 16) { puts("bad-op"); continue; }
+				if (v > 32) { puts("bad-op"); continue; }
 				if (!(b = _mpt_buffer_alloc(v * sizeof(uint64_t), 0))) { puts("bad-op"); continue; }
 				b->_content_traits = &el_traits;
 				for (uintptr_t i = 0; i < v; i++) ((uint64_t *) (b + 1))[i] = 10 * (nobj + 1) + i;
@@ -405,6 +415,23 @@ int main(void)
 			}
 			else { puts("bad-op"); continue; }
 			result(r ? "ok" : "refused", "0");
+		}
+		else if (!strcmp(op, "detach") && drv_nw == 4) {
+			int h = parse_idx(drv_w[2], NH), oi;
+			size_t len;
+			MPT_STRUCT(buffer) *b, *n;
+			if (h < 0 || drv_parse_nat(drv_w[3], &len) || len > 64 || !hnd[h].isarr || !(b = hnd[h].arr._buf)) { puts("bad-op"); continue; }
+			oi = obj_of_buf(b);
+			if (oi < 100 && !(oi >= 0 && oi < nobj && objs[oi].kind == K_RBUF)) { puts("bad-op"); continue; }
+			n = b->_vptr->detach(b, len * sizeof(uint64_t));
+			if (n && n != b) {
+				if (nanon >= NANON) { puts("FAULT too many buffers"); return 1; }
+				/* a stale entry with the same address belongs to a buffer that is gone */
+				for (int i = 0; i < nanon; i++) if (anon[i] == n) anon[i] = 0;
+				anon[nanon++] = n;
+				hnd[h].arr._buf = n;
+			}
+			result(n ? "ok" : "refused", "0");
 		}
 		else if (!strcmp(op, "end") && drv_nw == 2) {
 			finish_script();
